@@ -43,7 +43,9 @@ func fp(v float64) *float64 { return &v }
 
 var unitLabels = []string{"bytes", "ns", "s", "chars", "pct"}
 
-var patterns = []string{"^[a-z]+$", "^a", "[0-9]{2}", "^$", "^.{0,3}$", "b$", "^[A-Za-z0-9_-]*$", "x|y"}
+var patterns = []string{"^[a-z]+$", "^a", "[0-9]{2}", "^$", "^.{0,3}$", "b$", "^[A-Za-z0-9_-]*$", "x|y",
+	// white space at either end of a pattern is part of the pattern
+	"^(GET|POST) ", "[a-z] $", "\\t| [^ ]", " "}
 
 type ctx struct {
 	cfg     Cfg
@@ -374,6 +376,12 @@ func (c *ctx) decorate(s *Shape, env *Env) {
 					// a string property's default may be written bare, without the JSON quotes (the way a YAML author
 					// writes it) - including the empty text for the empty string
 					bare := sv
+					if p.T.Pattern == "" && (p.T.Max == nil || int64(len(sv))+2 <= *p.T.Max) && r.Chance(35) {
+						bare = wk.Pick(r, []string{" " + sv + " ", sv + " ", " " + sv, sv + ", "}) // white space is part of the text
+						if json.Valid([]byte(bare)) || (p.T.Max != nil && int64(len(bare)) > *p.T.Max) {
+							bare = sv
+						}
+					}
 					p.Default = &bare
 				}
 			}
